@@ -5,7 +5,7 @@ package sm4
 // Fallback when the declarations of sealAsm / openAsm are not the ones the monitors were written for: direct calls
 // are unavailable, sections that need them are skipped.
 
-const asmDirectAvailable = false
+const zvAsmDirectAvailable = false
 
 func vSealAsm(rk *uint32, tagSize int, dst *byte, nonce, plaintext, aad []byte, temp *byte) {
 	panic("direct call unavailable")
